@@ -1,5 +1,6 @@
 import PsyVerif.Lemmas.DeclsGen
 import PsyVerif.Lemmas.DeclsSort
+import PsyVerif.Lemmas.DeclsStable
 /-! # C03 — Re-writing is stable after one round trip
 
 Model: `PsyVerif/Model/Decls.lean`: `writeUnitPinned` (pinned `FortranWriter`: access-statement name
@@ -24,8 +25,15 @@ What is proved for all inputs
   writers coincide.
 * `C03_params_fixpoint`: the constants, re-listed in the order `_gen_parameter_decls` wrote them, are
   written in exactly that order again.
-Not proved (checked by the correspondence on exported tables and on the real files): the complete
-`write₁ ∘ read₁ ∘ write₁ = write₁` for units without forward references. -/
+* `C03_read_write_canonical`: a text without forward references (`cleanText`, decidable) is read into
+  its canonical table (contained routines, `use` symbols, derived types, other declarations in text
+  order) — for modules and routines.
+* `C03_stable_routine` (+ `C03_stable_routine_pinned`): for every ROUTINE whose written text has no
+  forward reference, `write₁ (read₁ (write₁ r)) = write₁ r` (via `C03_read_write_canonical` and
+  `genUses_canonical` / `genDecls_canonical` = write_canonical_id).
+Not proved: the same fixpoint theorem for MODULE scope (access statements); there the pieces above
+(`C03_access_canonical`, `C03_access_idem`, `C03_read_write_canonical`) are proved and the complete
+statement is checked by the correspondence on exported tables and on the real files. -/
 namespace C03
 open Decls
 
@@ -258,6 +266,124 @@ theorem C03_params_fixpoint (g : PGraph) (hnd : (pkeys g).Nodup) (out : List Nam
   unfold orderParams
   rw [this, hk]
 
+/-- **read_write_canonical**: a written text without forward references is read into its canonical
+table: contained routines, `use` symbols, derived types, the other declarations in text order. -/
+theorem C03_read_write_canonical (u : Decls.Unit) (items : List Item)
+    (h : cleanText u.outer u.args items = true) :
+    readBack u items = .ok
+      { isModule := u.isModule, defPrivate := defPrivateOf items, outerWild := u.outerWild, outer := u.outer,
+        syms := canonSyms items, args := u.args, body := stmtsOf items, routines := routinesOf items } :=
+  readItems_clean h
+
+/-- what a routine's written text looks like -/
+theorem writeUnit_routine {acc : Decls.Unit → List Item} {u : Decls.Unit} (hm : u.isModule = false)
+    {items : List Item} (h : writeWith acc u = .ok items) :
+    ∃ ds, genDecls u = .ok ds ∧
+      items = (u.syms.filter isContainer).map
+          (mkUse fun c => isort (names (u.syms.filter fun s => s.cls == .imported c.name)))
+        ++ (ds.map nv).map .decl ++ u.body.map .stmt := by
+  obtain ⟨ds, hd, rfl⟩ := writeWith_ok h
+  refine ⟨ds, hd, ?_⟩
+  simp only [hm, Bool.false_eq_true, if_false, List.append_nil]
+  rw [List.map_map]
+  rfl
+
+/-- **C03 for routines**: if the text written for a routine contains no forward reference
+(`cleanText`: every name a declaration reads is declared earlier, imported or host-associated; decidable)
+then writing, reading back and writing again gives exactly the same text. -/
+theorem C03_stable_routine (u : Decls.Unit) (w : Wf u) (hm : u.isModule = false) (items : List Item)
+    (h : writeUnit u = .ok items) (hclean : cleanText u.outer u.args items = true) :
+    roundTrip writeUnit u = .ok items := by
+  obtain ⟨ds, hd, hitems⟩ := writeUnit_routine hm h
+  unfold roundTrip
+  rw [h]
+  simp only
+  rw [C03_read_write_canonical u items hclean]
+  simp only
+  -- projections of the written text
+  set I := fun c : Sym => isort (names (u.syms.filter fun s => s.cls == .imported c.name)) with hI
+  set cs := u.syms.filter isContainer with hcs
+  have hplain : ∀ x ∈ items, plainItem x = true := by
+    intro x hx
+    rw [hitems] at hx
+    simp only [List.mem_append, List.mem_map] at hx
+    rcases hx with (⟨c, _, rfl⟩ | ⟨s, _, rfl⟩) | ⟨t, _, rfl⟩ <;> rfl
+  have hro : routinesOf items = [] := routinesOf_plain hplain
+  have hdecls : declsOf items = ds.map nv := by
+    rw [hitems]; simp only [declsOf_append, declsOf_uses, declsOf_decls, declsOf_stmts, List.nil_append, List.append_nil]
+  have hstm : stmtsOf items = u.body := by
+    rw [hitems]; simp only [stmtsOf_append', stmtsOf_uses, stmtsOf_decls, stmtsOf_stmts', List.nil_append, List.append_nil]
+  have huse : useSyms items items = cs.flatMap (blk (visOf items) I) := by
+    conv => lhs; arg 2; rw [hitems]
+    simp only [useSyms_append, useSyms_uses, useSyms_decls, useSyms_stmts, List.append_nil]
+  have hcan : canonSyms items = canonTab (cs.flatMap (blk (visOf items) I)) (ds.map nv) := by
+    unfold canonSyms canonTab
+    rw [hro, hdecls, huse]; simp
+  have hH : ∀ s ∈ cs.flatMap (blk (visOf items) I),
+      s.cls.declarable = false ∧ s.cls ≠ .unresolved ∧ s.cls ≠ .routineBad := by
+    intro s hs
+    obtain ⟨c, _, hsc⟩ := List.mem_flatMap.mp hs
+    simp only [blk, List.mem_cons] at hsc
+    rcases hsc with rfl | hsc
+    · simp [headSym, Cls.declarable]
+    · obtain ⟨n, _, rfl⟩ := List.mem_map.mp hsc
+      simp [Cls.declarable]
+  have hgd := genDecls_canonical w hd
+    { isModule := u.isModule, defPrivate := defPrivateOf items, outerWild := u.outerWild, outer := u.outer,
+      syms := canonSyms items, args := u.args, body := stmtsOf items, routines := routinesOf items }
+    hm _ hH hcan
+  have hcsnd : (names cs).Nodup := names_filter_nodup w.nodup isContainer
+  have hE : ∀ s ∈ (ds.map nv).filter isDtype ++ (ds.map nv).filter (fun s => !isDtype s),
+      s.cls.declarable = true := by
+    intro s hs
+    have hsd : s ∈ ds.map nv := by
+      rcases List.mem_append.mp hs with h | h <;> exact (List.mem_filter.mp h).1
+    obtain ⟨t, ht, rfl⟩ := List.mem_map.mp hsd
+    rw [nv_cls]
+    have := (genDecls_perm w hd).subset ht
+    simpa using (List.mem_filter.mp this).2
+  have huses : genUses (canonSyms items) = cs.map (mkUse I) := by
+    rw [hcan]; unfold canonTab
+    rw [List.append_assoc, genUses_canonical (visOf items) I cs _ hcsnd hE]
+    apply List.map_congr_left
+    intro c _
+    simp only [mkUse, hI, isort_idem]
+  unfold writeUnit writeWith
+  rw [hgd]
+  simp only [hm, Bool.false_eq_true, if_false, List.append_nil, huses, hstm]
+  have hnv : List.map (fun s => Item.decl (normVis false s)) (ds.map nv) = (ds.map nv).map .decl := by
+    rw [List.map_map, List.map_map]
+    apply List.map_congr_left
+    intro s _
+    exact congrArg Item.decl (nv_idem s)
+  rw [hnv, hitems]
+
+/-- in a routine there are no access statements: the pinned writer and the repaired one coincide -/
+theorem writeUnitPinned_routine (u : Decls.Unit) (hm : u.isModule = false) : writeUnitPinned u = writeUnit u := by
+  unfold writeUnitPinned writeUnit writeWith
+  simp [hm]
+
+/-- **C03 for routines, pinned writer**: same statement for the code as it is in the pinned tree. -/
+theorem C03_stable_routine_pinned (u : Decls.Unit) (w : Wf u) (hm : u.isModule = false) (items : List Item)
+    (h : writeUnitPinned u = .ok items) (hclean : cleanText u.outer u.args items = true) :
+    roundTrip writeUnitPinned u = .ok items := by
+  rw [writeUnitPinned_routine u hm] at h
+  have := C03_stable_routine u w hm items h hclean
+  unfold roundTrip at this ⊢
+  rw [writeUnitPinned_routine u hm, h] at *
+  simp only at this ⊢
+  cases hr : readBack u items with
+  | error e => rw [hr] at this; exact this
+  | ok u' =>
+    rw [hr] at this
+    simp only at this ⊢
+    have hm' : u'.isModule = false := by
+      unfold readBack readItems at hr
+      split at hr
+      · cases hr
+      · cases hr; exact hm
+    rw [writeUnitPinned_routine u' hm']; exact this
+
 /-! ## non-vacuity and sanity evaluations -/
 
 /-- a routine with imports, constants given out of order, arguments, a derived type and locals -/
@@ -273,6 +399,11 @@ def uOk : Decls.Unit :=
 
 example : Wf uOk := by decide
 example : stable writeUnit uOk = true ∧ stable writeUnitPinned uOk = true := by decide
+/-- the hypotheses of `C03_stable_routine` are met by `uOk`; the forward-reference unit is excluded -/
+example : uOk.isModule = false ∧ (match writeUnit uOk with
+    | .ok items => cleanText uOk.outer uOk.args items | .error _ => false) = true := by decide
+example : (match writeUnit cexForward with
+    | .ok items => cleanText cexForward.outer cexForward.args items | .error _ => true) = false := by decide
 example : (writeUnit uOk).toOption.map (fun l => (declsOf l).map (·.name)) = some [1, 2, 3, 7, 6, 8, 5, 9] := by
   decide
 example : orderParams [(3, [2]), (2, [1]), (1, [])] = some [1, 2, 3] ∧
